@@ -358,9 +358,12 @@ def _span(run: Run, fn: FuncInfo, records: List[Any]) -> None:
                     if not isinstance(piece, str):
                         terminators(piece[0])
                 return
+            if isinstance(v, Term) and v.op in ("listcomp", "gencomp", "setcomp") and v.args and isinstance(v.args[0], V):
+                terminators(v.args[0])      # what the comprehension yields; its source is an input, not part of the text
+                return
             if isinstance(v, Term):
                 for a in v.args:
-                    if isinstance(a, V):
+                    if isinstance(a, V) and not (isinstance(a, Term) and a.op == "src"):
                         terminators(a)
             elif isinstance(v, (ListV, TupleV)):
                 for a in v.items:
